@@ -428,7 +428,10 @@ def run_shard(shard, only=None):
                 V('rebuild-raises', type(e).__name__, 'building a second WSDL document from the same interface raised %r' % (e,))
             # what is published does not depend on how requests are validated (a validating protocol builds its schema
             # from the application's own document objects before the first WSDL is asked for)
-            for validator in ('lxml', 'soft'):
+            # (thorough tier: the validator and ?wsdl-history steps run on the quarter of the lattice without custom operation
+            # / message names - those dimensions do not touch what the steps look at, and the lattice is 2.5 times larger)
+            deep = tier == 'quick' or not (f['opname'] or f['msgnames'])
+            for validator in (('lxml', 'soft') if deep else ()):
                 try:
                     b5, app5, w5 = build_wsdl(program, f['proto'], validator)
                     if w5 != w:
@@ -445,7 +448,7 @@ def run_shard(shard, only=None):
                 b7 = spec.build(program)
                 wa = WsgiApplication(spec.make_app(b7, harness.make_proto(f['proto']), harness.make_proto(f['proto']), name=program.get('name', 'App')))
                 docs_seen = [w]
-                for host, path, query in (('localhost', '/app', 'wsdl'), ('other.example:8080', '/x/y', 'wsdl'), ('localhost', '/app', 'wsdl'),
+                for host, path, query in () if not deep else (('localhost', '/app', 'wsdl'), ('other.example:8080', '/x/y', 'wsdl'), ('localhost', '/app', 'wsdl'),
                                           ('third.example', '/app', 'WSDL'), ('other.example:8080', '/x/y', 'wsdl')):
                     env = drv.environ('GET', path, query, b'', content_type=None, content_length=None)
                     env['HTTP_HOST'] = host
